@@ -11,10 +11,12 @@ import (
 	"context"
 	"encoding/json"
 	"fmt"
+	"net/http"
 	"os"
 	"os/exec"
 	"path/filepath"
 	"sort"
+	"strconv"
 	"strings"
 
 	"goa.design/goa/v3/expr"
@@ -495,7 +497,31 @@ func withMethods(p *Pool, r *vh.RNG) *Pool {
 		roots = []*PType{w}
 	}
 	for i, t := range roots {
-		q.Methods = append(q.Methods, PMethod{Name: fmt.Sprintf("get%d", i), Type: t.Name})
+		m := PMethod{Name: fmt.Sprintf("get%d", i), Type: t.Name}
+		q.Methods = append(q.Methods, m)
+		// the same result with some plain attributes carried by response headers / a cookie: the
+		// response body type (and its views) is then computed per response
+		if r.Chance(2, 3) {
+			hm := PMethod{Name: fmt.Sprintf("geth%d", i), Type: t.Name}
+			for _, a := range t.Attrs {
+				inAll := true // goa accepts the mapping only for attributes every view lists
+				for vi := range t.Views {
+					if t.Views[vi].entry(a.Name) == nil {
+						inAll = false
+					}
+				}
+				switch {
+				case !inAll:
+				case a.Kind == "str" && len(hm.Cookies) == 0 && r.Chance(1, 5):
+					hm.Cookies = append(hm.Cookies, a.Name)
+				case (a.Kind == "str" || a.Kind == "int") && r.Chance(1, 2):
+					hm.Headers = append(hm.Headers, a.Name)
+				}
+			}
+			if len(hm.Headers)+len(hm.Cookies) > 0 {
+				q.Methods = append(q.Methods, hm)
+			}
+		}
 	}
 	ct := roots[r.Intn(len(roots))]
 	q.Methods = append(q.Methods, PMethod{Name: "list", Type: ct.Name, Coll: true})
@@ -541,7 +567,8 @@ func tierBCorpus() []*Pool {
 	for _, p := range cp {
 		switch p.Tag {
 		case "corpus:outer-inner":
-			p.Methods = []PMethod{{Name: "get", Type: "Outer"}, {Name: "leaf", Type: "Inner"}, {Name: "list", Type: "Outer", Coll: true}, {Name: "fixed", Type: "Outer", Fixed: "tiny"}, {Name: "fixedlist", Type: "Outer", Coll: true, Fixed: "mid"}}
+			p.Methods = []PMethod{{Name: "get", Type: "Outer"}, {Name: "leaf", Type: "Inner"}, {Name: "list", Type: "Outer", Coll: true}, {Name: "fixed", Type: "Outer", Fixed: "tiny"}, {Name: "fixedlist", Type: "Outer", Coll: true, Fixed: "mid"},
+				{Name: "geth", Type: "Outer", Headers: []string{"a"}}, {Name: "fixedh", Type: "Outer", Fixed: "tiny", Cookies: []string{"a"}}}
 			out = append(out, p)
 		case "corpus:memo-sibling-tiny":
 			p.Methods = []PMethod{{Name: "get", Type: "Outer"}, {Name: "list", Type: "Outer", Coll: true}, {Name: "fixed", Type: "Outer", Fixed: "tiny"}}
@@ -559,13 +586,15 @@ func tierBCorpus() []*Pool {
 	for _, p := range cp {
 		switch p.Tag {
 		case "corpus:meta-override-combos":
-			p.Methods = []PMethod{{Name: "get", Type: "Outer"}, {Name: "list", Type: "Outer", Coll: true}, {Name: "fixed", Type: "Outer", Fixed: "ext"}}
+			p.Methods = []PMethod{{Name: "get", Type: "Outer"}, {Name: "list", Type: "Outer", Coll: true}, {Name: "fixed", Type: "Outer", Fixed: "ext"},
+				{Name: "geth", Type: "Outer", Headers: []string{"a"}}}
 			out = append(out, p)
 		case "corpus:map-values":
 			p.Methods = []PMethod{{Name: "get", Type: "Outer"}, {Name: "list", Type: "Outer", Coll: true}}
 			out = append(out, p)
 		case "corpus:containers":
-			p.Methods = []PMethod{{Name: "get", Type: "Outer"}, {Name: "list", Type: "Outer", Coll: true}, {Name: "fixed", Type: "Outer", Fixed: "tiny"}}
+			p.Methods = []PMethod{{Name: "get", Type: "Outer"}, {Name: "list", Type: "Outer", Coll: true}, {Name: "fixed", Type: "Outer", Fixed: "tiny"},
+				{Name: "geth", Type: "Outer", Headers: []string{"a"}}}
 			out = append(out, p)
 		}
 	}
@@ -776,7 +805,15 @@ func runTierB(self, out, repo, harnessDir string, rng *vh.RNG, nDesigns, nVals i
 					}
 					return nil, xs
 				}
-				return genValue(p, m.Type, 0, k%3, rng), nil
+				val := genValue(p, m.Type, 0, k%3, rng)
+				// header / cookie transport of arbitrary strings is property C02/C03's business:
+				// attributes that travel there get transport-safe values
+				for _, a := range append(append([]string{}, m.Headers...), m.Cookies...) {
+					if s, ok := val[a].(string); ok && s != "" {
+						val[a] = words[rng.Intn(6)]
+					}
+				}
+				return val, nil
 			}
 			for _, v := range views {
 				for k := 0; k < nVals; k++ {
@@ -851,6 +888,40 @@ func runTierB(self, out, repo, harnessDir string, rng *vh.RNG, nDesigns, nVals i
 			var raw any
 			if err := dec.Decode(&raw); err == nil {
 				wire, wireOK = fromJSON(raw), true
+			} else if strings.TrimSpace(ob.Resp.Body) == "" && len(in.Method.Headers)+len(in.Method.Cookies) > 0 {
+				wire, wireOK = map[string]any{}, true // every attribute of the view travels outside the body
+			}
+			// the attributes the response carries in headers / cookies are part of what crosses the
+			// wire: they are read back from there (what the property constrains is WHICH attributes
+			// reach the client, wherever the response puts them)
+			if m, ok := wire.(map[string]any); ok && wireOK {
+				ty := p.typ(t)
+				put := func(a, raw string) {
+					if _, dup := m[a]; dup {
+						m["?both-body-and-header:"+a] = raw
+						return
+					}
+					if at := ty.attr(a); at != nil && at.Kind == "int" {
+						if n, err := strconv.ParseInt(raw, 10, 64); err == nil {
+							m[a] = n
+							return
+						}
+					}
+					m[a] = raw
+				}
+				for _, a := range in.Method.Headers {
+					if hs, ok := ob.Resp.Headers[http.CanonicalHeaderKey(hdrName(a))]; ok && len(hs) > 0 {
+						put(a, hs[0])
+					}
+				}
+				for _, a := range in.Method.Cookies {
+					for _, sc := range ob.Resp.Headers["Set-Cookie"] {
+						if strings.HasPrefix(sc, ckName(a)+"=") {
+							v := strings.SplitN(strings.TrimPrefix(sc, ckName(a)+"="), ";", 2)[0]
+							put(a, strings.Trim(v, "\""))
+						}
+					}
+				}
 			}
 		}
 		var hdr *string
